@@ -35,12 +35,22 @@ func bytesOfTerm(t *Term) []*Term {
 	return out
 }
 
+// termOfBytes concatenates bytes (big-endian) as a balanced tree for long inputs, so that neither the term DAG nor the
+// per-term symbol sets grow quadratically.
 func termOfBytes(bs []*Term) *Term {
-	t := bs[0]
-	for _, b := range bs[1:] {
-		t = Concat(t, b)
+	if len(bs) <= 72 {
+		t := bs[0]
+		for _, b := range bs[1:] {
+			t = Concat(t, b)
+		}
+		return t
 	}
-	return t
+	// split at a multiple of 64 so that equal suffix/prefix chunks are shared between applications
+	h := (len(bs) / 2 / 64) * 64
+	if h == 0 {
+		h = len(bs) / 2
+	}
+	return Concat(termOfBytes(bs[:h]), termOfBytes(bs[h:]))
 }
 
 func init() {
@@ -79,13 +89,12 @@ func init() {
 			e.unsupported_(st, "SignBy digest must be 32 bytes")
 			return nil, true
 		}
-		name := st.fresh("sig", BV(8)).name
-		bs := make([]*Term, 65)
-		for k := range bs {
-			bs[k] = Var(fmt.Sprintf("%s[%d]", name, k), BV(8))
-		}
+		// one 520-bit variable per signature (its bytes are extracts), so that re-assembled signatures fold back to
+		// the variable and (digest, signature) comparisons stay small
+		ns := st.fresh("sig", BV(520))
+		bs := bytesOfTerm(ns)
 		st.assume(BVUlt(bs[64], ConstU(4, 8))) // valid recovery id
-		nd, ns := termOfBytes(dg), termOfBytes(bs)
+		nd := termOfBytes(dg)
 		for _, r := range st.sigs {
 			if r.key != i {
 				// a (digest, signature) pair recovers to exactly one key
